@@ -242,26 +242,34 @@ def kani(scratch, crate, harnesses=None, timeout_s=600, jobs=None, extra=None, c
 VEC_RE = re.compile(r"vec!\[([\d,\s]*)\]")
 
 
-def kani_playback_values(scratch, crate, harness, timeout_s=900, cwd=None):
+def kani_playback_values(scratch, crate, harness, timeout_s=900, cwd=None, extra=None):
     """Re-runs one failing harness with concrete playback; returns the solver's values as a list
     of unsigned little-endian integers, in the order the harness drew them."""
     cwd = cwd or os.path.join(scratch.harness, crate)
     cmd = ["cargo", "kani", "-Z", "stubbing", "-Z", "unstable-options", "-Z", "concrete-playback",
            "--concrete-playback=print", "--target-dir", os.path.join(scratch.target, crate),
-           "--harness", harness]
+           "--harness", harness] + (extra or [])
     rc, out, wall = run(cmd, cwd=cwd, timeout=timeout_s)
-    m = re.search(r"let concrete_vals: Vec<Vec<u8>> = vec!\[(.*?)\n\s*\];", out, re.S)
-    if not m:
+    # Kani prints one playback test per FAILED CHECK and one per SATISFIED COVER; only the former
+    # are counterexamples.  Returns the value vectors of the failed checks (deduplicated, in order).
+    cands = []
+    for blk in re.finditer(r"/// Check for `(\w+)`: \"(.*?)\"\n.*?let concrete_vals: Vec<Vec<u8>> = vec!\[(.*?)\n\s*\];", out, re.S):
+        kind, desc, body = blk.group(1), blk.group(2), blk.group(3)
+        if kind == "cover":
+            continue
+        vals = []
+        for v in VEC_RE.finditer(body):
+            bs = [int(x) for x in v.group(1).replace(" ", "").split(",") if x != ""]
+            vals.append(int.from_bytes(bytes(bs), "little"))
+        if vals not in [c[1] for c in cands]:
+            cands.append((desc, vals))
+    if not cands:
         return None, out
-    vals = []
-    for v in VEC_RE.finditer(m.group(1)):
-        bs = [int(x) for x in v.group(1).replace(" ", "").split(",") if x != ""]
-        vals.append(int.from_bytes(bytes(bs), "little"))
-    return vals, out
+    return cands, out
 
 
 def native_replay(scratch, crate, harness, values, profiles=("dev", "release"), cwd=None,
-                  timeout_s=900, as_test=False, rustflags=""):
+                  timeout_s=900, as_test=False, rustflags="", test_name="verif_replay_entry", cargo_extra=None):
     """Runs the SAME harness body natively (ordinary rustc, real std, real tarpc build of the
     scratch copy) on the solver's values.  Returns dict profile -> 'reproduced'|'passed'|'assume'|'error'."""
     cwd = cwd or os.path.join(scratch.harness, crate)
@@ -275,9 +283,9 @@ def native_replay(scratch, crate, harness, values, profiles=("dev", "release"), 
     for prof in profiles:
         if as_test:
             cmd = ["cargo", "test", "--offline", "--lib"] + as_test + (["--release"] if prof == "release" else []) + \
-                  ["--", "verif_replay_entry", "--exact", "--nocapture", "--test-threads", "1"]
+                  ["--", test_name, "--nocapture", "--test-threads", "1"]
         else:
-            cmd = ["cargo", "run", "--offline", "--quiet", "--bin", "replay"] + (["--release"] if prof == "release" else []) + ["--", harness]
+            cmd = ["cargo", "run", "--offline", "--quiet", "--bin", "replay"] + (cargo_extra or []) + (["--release"] if prof == "release" else []) + ["--", harness]
         rc, out, _ = run(cmd, cwd=cwd, timeout=timeout_s, env=env)
         outs[prof] = out[-3000:]
         if "REPLAY-ASSUME-FAILED" in out:
@@ -426,6 +434,28 @@ def wheel_max_duration_ms():
         if nl and md:
             return (1 << (int(md.group(1)) * int(nl.group(1)))) - 1, ver
     raise Inconclusive("tokio-util wheel constants not found")
+
+
+def inject_c12_overlay(scratch):
+    """C12: harness module injected as a CHILD of `server` (it builds TrackedRequest/ResponseGuard
+    values, whose fields are private to that module), plus logging compiled out in the scratch
+    copy's Cargo.toml (tracing/log `max_level_off`: the documented static filter; no source change)."""
+    tsrc = os.path.join(scratch.repo, "tarpc", "src")
+    shutil.copy(os.path.join(VERIF, "experiments", "tarpc_overlay_c12.rs"), os.path.join(tsrc, "server", "verif_overlay_c12.rs"))
+    shutil.copy(os.path.join(VERIF, "harness", "common", "nd.rs"), os.path.join(tsrc, "verif_nd.rs"))
+    with open(os.path.join(tsrc, "server.rs"), "a") as f:
+        f.write("\n#[cfg(any(kani, verif_replay))]\n#[path = \"server/verif_overlay_c12.rs\"]\nmod verif_overlay_c12;\n")
+    lib = os.path.join(tsrc, "lib.rs")
+    if "pub mod nd;" not in open(lib).read():
+        with open(lib, "a") as f:
+            f.write("\n#[cfg(any(kani, verif_replay))]\n#[allow(missing_docs, dead_code, unused_imports, unused_macros)]\n#[path = \"verif_nd.rs\"]\npub mod nd;\n")
+    cargo = os.path.join(scratch.repo, "tarpc", "Cargo.toml")
+    c = open(cargo).read()
+    c2 = re.sub(r'(tracing = \{ version = "0\.1", default-features = false, features = \[)', r'\1\n    "max_level_off",', c, count=1)
+    if c2 == c:
+        raise Inconclusive("could not add max_level_off to tarpc's tracing dependency in the scratch copy")
+    c2 = c2.replace("[dependencies]\n", "[dependencies]\nlog = { version = \"0.4\", features = [\"max_level_off\"] }\n", 1)
+    open(cargo, "w").write(c2)
 
 
 def inject_overlay(scratch):
